@@ -121,7 +121,7 @@ def replay_str_rt(data):
     return not ok, "code %d prints %r which reads back as %d" % (c, s, op2.integer_code)
 
 
-REPLAY = {"code": replay_code, "rt": replay_rt, "fp": replay_fp, "apply": replay_apply, "cart": replay_cart,
+REPLAY = {"code": replay_code, "rt": replay_rt, "fp": replay_fp, "eq": replay_fp, "apply": replay_apply, "cart": replay_cart,
           "str": replay_str, "strrt": replay_str_rt}
 
 
@@ -358,7 +358,24 @@ def part_b(ctx, m, real, thorough):
         o2 = real.SymmetryOperation(-np.eye(3), np.array([0.5, 0.0, 0.75]))
         o1._integer_code = o2._integer_code = sentinel
         h_ok = h_ok and hash(o1) == hash(o2) and (o1 == o2)
-    ctx.record("fp: __hash__/__eq__ depend on the packed code only (ground instances)", "holds" if h_ok else "counterexample", nontrivial=True)
+    # ... and on the real objects: equal modulo the lattice (integer shifts, noise across the 0/1 wrap) <=> equal, same hash
+    eq_bad = None
+    Rz = np.array([[0., -1, 0], [1, 0, 0], [0, 0, 1]])
+    for t in ([0.0, 0.5, 0.25], [1 / 3, 2 / 3, 0.0], [0.75, 1 / 12, 11 / 12]):
+        for n in ([0, 0, 0], [1, 0, 0], [-1, 2, 0], [0, -2, 3], [1, 1, 1]):
+            for noise in (0.0, 1e-13, -1e-13):
+                a_ = real.SymmetryOperation(Rz, np.array(t))
+                b_ = real.SymmetryOperation(Rz, np.array(t) + np.array(n) + noise)
+                if not (a_ == b_) or hash(a_) != hash(b_):
+                    eq_bad = eq_bad or {"R": Rz.tolist(), "tref": list(t), "t": (np.array(t) + np.array(n) + noise).tolist()}
+        c_ = real.SymmetryOperation(Rz, np.array(t) + np.array([0.5, 0, 0]))
+        if real.SymmetryOperation(Rz, np.array(t)) == c_:
+            eq_bad = eq_bad or {"R": Rz.tolist(), "tref": list(t), "t": (np.array(t) + np.array([0.5, 0, 0])).tolist(), "distinct": True}
+    ctx.record("fp: __hash__/__eq__ depend on the packed code only, and operations equal modulo the lattice compare and hash equal (ground instances)",
+               "holds" if (h_ok and eq_bad is None) else "counterexample", nontrivial=True)
+    if not h_ok or eq_bad is not None:
+        ctx.violation("eq:lattice", "operations that differ by a lattice translation (or rounding noise across the wrap) do not compare equal / equality is not decided by the packed code",
+                      eq_bad or {"R": np.eye(3).tolist(), "tref": [0.25, 0.5, 0.0], "t": [1.25, -0.5, 3.0]}, replay_fp)
     x = SymFP(z3.FP("x", F64))
     xr = z3.fpToReal(x.t)
     axes_ns = [(0, n) for n in ((-4, -3, -2, -1, 0, 1, 2, 3, 4) if thorough else (-1, 0, 1))] + [(1, 0), (2, 0)]
